@@ -1,4 +1,4 @@
-import LunarVerif.Proofs.C05Perm
+import LunarVerif.Proofs.C05Ref
 /-!
 # C05 — every configuration the loader accepts runs safely on all traffic
 
@@ -121,6 +121,33 @@ theorem build_terminates (pts : List PType) (fs : List XFlow) (x : XFlow) (hx : 
     buildX pts fs x.name d (buildFuel fs) [] x.name s (x.conns d) ≠ .error .fuel :=
   buildX_top_noFuel pts fs x hx d s
 
+/-- **ref_cycle_refused.**  If the builder succeeds on the connection list of the flow under construction
+    (`x`, in-progress set empty), then along EVERY chain of flow references starting at `x` no flow occurs twice
+    and `x` itself does not occur: the reference graph reachable from `x` is acyclic.  Contrapositive: a
+    reference cycle reachable from `x` — through `x` (self reference, A ⇄ B, rings) or not (rho shapes: a tail
+    into a cycle) — makes the build of `x` fail, and by `build_terminates` it fails with an error, it does not
+    run out of fuel.  Fuel-free: the statement holds for whatever fuel the successful build was given. -/
+theorem ref_cycle_refused (pts : List PType) (fs : List XFlow) (x : XFlow) (d : Dir) (fuel : Nat) (s s' : BS)
+    (h : buildX pts fs x.name d fuel [] x.name s (x.conns d) = .ok s') (p : List String)
+    (hp : RefChain fs d (x.conns d) p) : (x.name :: p).Nodup := by
+  have := buildX_ok_chain pts fs x.name d p (x.conns d) fuel [] x.name s s' h hp
+  exact List.nodup_cons.mpr ⟨fun hin => (this.2 x.name hin).2 rfl, this.1⟩
+
+/-- the same one level down: the in-progress set grows strictly along the recursion (every flow being
+    incorporated is recorded), which is what bounds the nesting by the number of flows -/
+theorem incorporate_records_target (pts : List PType) (fs : List XFlow) (home : String) (d : Dir) (cs : List XConn)
+    (fuel : Nat) (stack : List String) (cur : String) (s s' : BS)
+    (h : buildX pts fs home d fuel stack cur s cs = .ok s') (y : String) (hy : y ∈ refTargets cs) :
+    ∃ tf, findFlow fs y = some tf ∧ y ∉ stack ∧ y ≠ home ∧
+      ∃ fuel' s0 s2, buildX pts fs home d fuel' (y :: stack) y s0 (tf.conns d) = .ok s2 :=
+  buildX_ok_refs pts fs home d cs fuel stack cur s s' h y hy
+
+/-- regression for the seeded change C05-s3, rho shape `Entry → LoopA → LoopB → LoopA`: refused with
+    "circular flow reference", for every one of the three flows, although the cycle does not pass through `Entry` -/
+example : load wCfgRho = .reject "refcycle" := by decide
+example : RefChain wCfgRho.flows .res (wRhoEntry.conns .res) ["LoopA", "LoopB", "LoopA"] :=
+  ⟨by decide, _, rfl, by decide, _, rfl, by decide, _, rfl, trivial⟩
+
 /-- **load_terminates.**  The loader ends with accept or reject for EVERY configuration directory. -/
 theorem load_terminates (c : Cfg) : (∃ fls, load c = .accept fls) ∨ (∃ cls, load c = .reject cls) := by
   cases h : load c with
@@ -130,7 +157,7 @@ theorem load_terminates (c : Cfg) : (∃ fls, load c = .accept fls) ∨ (∃ cls
 
 /-- regression examples: the former witnesses of F05a, F05b, F05c are refused with an error … -/
 example : load wCfgA = .reject "cycle" := by decide
-example : load wCfgB = .reject "flowref" := by decide
+example : load wCfgB = .reject "refcycle" := by decide
 example : load wCfgC = .reject "quota" := by decide
 /-- … while the neighbouring legitimate configurations still load: a short-circuit continuation without
     cycle in a root-less response direction, and a flow incorporated twice (diamond of references). -/
